@@ -13,14 +13,8 @@ the model's outcome is not the panic outcome. One theorem per method:
 Hypotheses beyond `NodeWF`/`WT`, each a decidable `Bool`/`DecidableEq` fact the driver can evaluate:
   * `cmp_no_panic`: `EmitOK n` — for a *named* bool the emitter writes a six-way comparison that does not
     compile; the model's `cmpSix` answers `.panic` there (`cmp_needs_EmitOK`).
-  * `deq_no_panic`: neither argument is a nil `**T` — `deqM` dereferences `*lp` / `*rp` in the header whatever
-    the configuration (`deq_nil_ptrptr_panics_fixed`): the class `nil-root-panics` is not wired to
-    `GenCfg.nilRootPanics` in `deqM`.
   * `copyTo_no_panic`: the destination value is well-typed too.
-  * `loop_no_panic`: `LoopNilKeyFree` — the iterator never asks for keys, or the looped map holds no nil
-    pointer key. The emitted key rendering `*k` (compiler.go:785-800) dereferences a nil `*K` key; no listed
-    defect flag repairs it (`loop_nil_key_panics_fixed`).
-`RootOK` is needed nowhere.
+`RootOK` is needed nowhere; DeepEqual and Loop need nothing beyond `WT` (Loop: `NodeWF`, `WT`).
 
 The model of the current tree (`GenCfg.repo`) panics on every listed class: `repo_panics_*`.
 -/
@@ -53,12 +47,12 @@ theorem lc_no_panic (isCap : Bool) (n : Node) (f : Form) (v : Val) (p : List Seg
     lcM GenCfg.fixed isCap n f v p ≠ .panic :=
   lcM_no_panic isCap n f v p hwf hwt
 
-/-- DeepEqual / DeepEqualWithOptions never panic: every pair of argument forms except a nil `**T`, every
+/-- DeepEqual / DeepEqualWithOptions never panic: every pair of argument forms (a nil `**T` included), every
 options value (`env.opts`), identical or independent arguments (`env.ident`). -/
 theorem deq_no_panic (env : DeqEnv) (henv : env.cfg = GenCfg.fixed) (n : Node) (fl fr : Form) (l r : Val)
-    (hfl : fl ≠ .nilPtrPtr) (hfr : fr ≠ .nilPtrPtr) (hl : WT n l = true) (hr : WT n r = true) :
+    (hl : WT n l = true) (hr : WT n r = true) :
     deqM env n fl fr l r ≠ .panic :=
-  c02_deqM_no_panic env henv n fl fr l r hfl hfr hl hr
+  c02_deqM_no_panic env henv n fl fr l r hl hr
 
 /-- Reset never panics. -/
 theorem reset_no_panic (n : Node) (f : Form) (v : Val) (hwt : WT n v = true) :
@@ -90,9 +84,9 @@ theorem assign_no_panic (a : Bool) (dk : DynKind) (old : Val) (s : Src) (noBuf :
 
 /-- Loop never panics: every iterator script and float-text oracle. -/
 theorem loop_no_panic (sc : LoopScript) (ft : Val → Bytes) (n : Node) (f : Form) (v : Val) (p : List Seg)
-    (hwf : NodeWF n = true) (hwt : WT n v = true) (hk : LoopNilKeyFree sc n v p = true) :
+    (hwf : NodeWF n = true) (hwt : WT n v = true) :
     (loopM GenCfg.fixed sc ft n f v p).fin ≠ .panic :=
-  loopM_no_panic sc ft n f v p hwf hwt hk
+  loopM_no_panic sc ft n f v p hwf hwt
 
 section NonVacuity
 /-- `type T struct { M map[string]int; L []int; P *int; S *string; E []*Inner; I Inner; PM map[*string]int }`,
@@ -126,9 +120,6 @@ def exFt (_ : Val) : Bytes := []
 
 /-- The hypotheses of all theorems hold of a concrete input full of nil pointers, nil maps and nil elements … -/
 example : NodeWF exNode = true ∧ EmitOK exNode = true ∧ WT exNode exVal = true ∧ WT exNode exZero = true := by decide
-example : LoopNilKeyFree exScriptKeys exNode exVal [seg "M"] = true ∧
-    LoopNilKeyFree exScriptNoKeys exNode exVal [seg "PM"] = true ∧
-    LoopNilKeyFree exScriptKeys exNode exVal [seg "PM"] = false := by decide
 /-- … on which the repaired model answers (instances of the theorems, evaluated). -/
 example : (getM GenCfg.fixed exNode .ptr exVal [seg "L", seg "-1" (some (-1))]).isPanic = false := by decide
 example : (getM GenCfg.fixed exNode .nilPtr exVal [seg "L"]).isPanic = false := by decide
@@ -213,7 +204,27 @@ theorem repo_panics_deq_ptr_leaf_nil :
     deqM {} exNode .ptr .ptr exVal exVal = .panic := by
   decide
 
-/-! ### What the repaired model still does: the hypotheses are needed -/
+/-- `nil-root-panics`, DeepEqual: a nil `**T` argument is dereferenced in the header (`lx, leq = *lp, true`,
+compiler.go:400-401) — also next to an unrecognised left argument, since `*rp` is evaluated before
+`!leq || !req`; the repaired emitter refuses it (answer false). -/
+theorem repo_panics_deq_nil_ptrptr :
+    deqM {} exNode .nilPtrPtr .ptr exVal exVal = .panic ∧
+    deqM {} exNode .ptr .nilPtrPtr exVal exVal = .panic ∧
+    deqM {} exNode .foreign .nilPtrPtr exVal exVal = .panic ∧
+    deqM { cfg := GenCfg.fixed } exNode .nilPtrPtr .ptr exVal exVal = .f ∧
+    deqM { cfg := GenCfg.fixed } exNode .ptr .nilPtrPtr exVal exVal = .f ∧
+    deqM { cfg := GenCfg.fixed } exNode .foreign .nilPtrPtr exVal exVal = .f := by
+  decide
+
+/-- `loop-nil-key-panics`: Loop over `PM = map[*string]int{nil: 1}` with an iterator that asks for keys: the
+emitted `*k` (compiler.go:785-800) dereferences the nil key; the repaired emitter hands over an empty key. -/
+theorem repo_panics_loop_nil_key :
+    (loopM GenCfg.repo exScriptKeys exFt exNode .ptr exVal [seg "PM"]).fin = .panic ∧
+    (loopM GenCfg.fixed exScriptKeys exFt exNode .ptr exVal [seg "PM"]).fin = .done ∧
+    (loopM GenCfg.fixed exScriptKeys exFt exNode .ptr exVal [seg "PM"]).groups.map (·.key) = [some []] := by
+  decide
+
+/-! ### What the repaired model still does: the remaining hypothesis is needed -/
 
 /-- `type B bool; type T struct { F B }`: the emitted six-way comparison on a named bool does not compile
 (C14 class `named-scalar`); the model's `cmpSix` answers `.panic` there. `EmitOK` excludes exactly this. -/
@@ -223,20 +234,6 @@ theorem cmp_needs_EmitOK :
     cmpM GenCfg.fixed exNamedBool .ptr (.struct [.bool true]) [seg "F"] 1 { text := strBytes "true", pb := some true } = .panic := by
   decide
 
-/-- A nil `**T` argument of DeepEqual is dereferenced in the header (`lx, leq = *lp, true`, compiler.go:400)
-under every configuration: `deqM` does not consult `nilRootPanics`. -/
-theorem deq_nil_ptrptr_panics_fixed :
-    deqM { cfg := GenCfg.fixed } exNode .nilPtrPtr .ptr exVal exVal = .panic ∧
-    deqM { cfg := GenCfg.fixed } exNode .ptr .nilPtrPtr exVal exVal = .panic ∧
-    deqM { cfg := GenCfg.fixed } exNode .foreign .nilPtrPtr exVal exVal = .panic := by
-  decide
-
-/-- Loop over `PM = map[*string]int{nil: 1}` with an iterator that asks for keys: the emitted `*k` panics
-even in the repaired model — a defect of the emitter that no `GenCfg` flag lists. -/
-theorem loop_nil_key_panics_fixed :
-    (loopM GenCfg.fixed exScriptKeys exFt exNode .ptr exVal [seg "PM"]).fin = .panic ∧
-    (loopM GenCfg.repo exScriptKeys exFt exNode .ptr exVal [seg "PM"]).fin = .panic := by
-  decide
 end NonVacuity
 
 end Inspector.C02
